@@ -277,6 +277,40 @@ impl RepoHandle {
     }
 }
 
+/// Added for C04/C08/C17: the same handle operations with the local cache switched off (`RepositoryOptions::no_cache`).
+/// With the default options every opened repository creates `~/.cache/rustic/<repo id>` and index / snapshot reads are
+/// served from there — tampering with the backend is then invisible and the cache directory grows with every case.
+pub fn nocache_opts() -> RepositoryOptions {
+    RepositoryOptions::default().no_cache(true)
+}
+
+impl RepoHandle {
+    pub fn init_nocache(be: MemBackend, hot: Option<MemBackend>, cfg: &ConfigOptions) -> RusticResult<(Self, Repository<OpenStatus>)> {
+        let key = MasterKey::new();
+        let h = Self { be, hot, key };
+        let repo = Repository::new(&nocache_opts(), &h.backends())?;
+        let repo = repo.init(&Credentials::Masterkey(h.key.clone()), &KeyOptions::default(), cfg)?;
+        Ok((h, repo))
+    }
+    pub fn open_nocache(&self) -> RusticResult<Repository<OpenStatus>> {
+        self.open_with(&nocache_opts())
+    }
+}
+
+/// `backup` without the local cache.
+pub fn backup_nocache(h: &RepoHandle, src: &MemSource, opts: &BackupOptions, snap: SnapshotFile) -> RusticResult<SnapshotFile> {
+    let repo = h.open_nocache()?.to_indexed_ids()?;
+    repo.archive(opts, src, snap, &[PathBuf::from(SRC_ROOT)])
+}
+
+/// `check_errors` without the local cache.
+pub fn check_errors_nocache(h: &RepoHandle, read_data: bool) -> Option<usize> {
+    let repo = h.open_nocache().ok()?;
+    let opts = CheckOptions::default().read_data(read_data);
+    let res = repo.check(opts).ok()?;
+    Some(res.0.iter().filter(|(l, _)| format!("{l:?}") == "Error").count())
+}
+
 /// One entry of an in-memory source tree.  `path` is relative to the source root, components are raw bytes.
 #[derive(Clone, Debug)]
 pub enum SrcKind {
